@@ -199,8 +199,9 @@ def run(prop, tier, verdict):
         sig = '%s:%s' % (prop, classify(rj, lines_by_t.get(rj['t'], [])))
         verdict.report(sig, {'rejected_event': rj['line'], 'previous_event': rj['prev']},
                        {'engine': 'sess', 'scenario': by_id.get(rj['t']), 'seed': seedv, 'trace': [json.loads(x) for x in lines_by_t.get(rj['t'], [])][-60:]})
-    if drift_majority and not rej:
-        raise Broken('more than half of the strict replays drifted and Layer P accepted every trace: the model no longer describes the code')
+    # (the model no longer describes the code: broken, unless another engine of the same check still finds a rejected trace --
+    #  decided by the caller once every engine has run)
+    cov['drift_majority_unexplained'] = bool(drift_majority and not rej)
     nontrivial = set()
     for s in scen:
         acts = [x[0] for x in s['steps']]
